@@ -264,7 +264,21 @@ def build_entries() -> Dict[str, Tuple[Any, Spec]]:
     add(HTTPMessageLogEntry(_http_flow(2, None, method="POST", status=404)),
         Spec("http_url", "HTTP", "http://address:22/path", meta={"Method": "POST", "Status": 404, "Url": "http://address:22/path",
                                                                  "ReqHeaders": {"header": "qvalue"}}))
-    # 12 (part b only): a variable whose payload its subfield serializer cannot decode
+    # 12-15: the same NAME under different entry kinds (ParcelProperties really arrives both as LLUDP and as an EQ event; a cap
+    # may be named like a message) -- anything keyed on the name alone confuses them
+    add(HTTPMessageLogEntry(_http_flow(3, "Foo", cookie=None)),
+        Spec("http_foo", "HTTP", "Foo", meta={"Method": "GET", "Status": 200, "Url": "http://address:22/path",
+                                             "ReqHeaders": {"header": "qvalue"}}))
+    m = Message("ParcelProperties", Block("ParcelData", LocalID=5, Name="parcel"), packet_id=7)
+    add(LLUDPMessageLogEntry(m, None, None),
+        Spec("udp_parcel", "LLUDP", "ParcelProperties", [("ParcelData", [{"LocalID": 5, "Name": "parcel"}])],
+             meta={"Method": "OUT", "Acks": (), "Extra": b""}))
+    add(EQMessageLogEntry({"message": "ParcelProperties", "body": {"ParcelData": [{"LocalID": 5, "Name": "parcel"}]}}, None, None),
+        Spec("eq_parcel", "EQ", "ParcelProperties"))
+    add(HTTPMessageLogEntry(_http_flow(4, "ParcelProperties", method="POST")),
+        Spec("http_parcel", "HTTP", "ParcelProperties", meta={"Method": "POST", "Status": 200, "Url": "http://address:22/path",
+                                                              "ReqHeaders": {"header": "qvalue"}}))
+    # 16 (part b only): a variable whose payload its subfield serializer cannot decode
     m = Message("ImprovedTerseObjectUpdate", Block("RegionData", RegionHandle=5, TimeDilation=65535),
                 Block("ObjectData", Data=b"\x01\x02", TextureEntry=b""), packet_id=6)
     add(LLUDPMessageLogEntry(m, None, None),
@@ -275,7 +289,7 @@ def build_entries() -> Dict[str, Tuple[Any, Spec]]:
 
 
 ENTRY_IDS_A = ["udp_foo", "udp_foo_frozen", "udp_multi", "udp_bar", "udp_terse", "udp_generic_wire", "udp_stub", "eq_plain", "eq_foo",
-               "http_cap", "http_url"]
+               "http_cap", "http_url", "http_foo", "eq_parcel", "udp_parcel", "http_parcel"]
 ENTRY_IDS_B = ENTRY_IDS_A + ["udp_terse_bad"]
 
 _ENTRIES: Dict[str, Tuple[Any, Spec]] = {}
@@ -448,7 +462,10 @@ SELECTORS: List[Tuple[Tuple[str, ...], str]] = (
         (("ImprovedTerseObjectUpdate", "ObjectData", "Data", "Nope"), "sub-missing"),
         (("ImprovedTerseObjectUpdate", "ObjectData", "Data", "*"), "sub-glob"), (("*", "*", "*", "*"), "sub-allglob"),
         (("ImprovedTerseObjectUpdate", "RegionData", "TimeDilation", "x"), "sub-nondict"), (("Foo", "Bar", "I", "x"), "sub-noserializer"),
-        (("Foo",), "root-only"), (("F*",), "root-only"), (("HTTP",), "root-only"), (("Foo", "Bar"), "arity2"),
+        (("Foo",), "root-only"), (("F*",), "root-only"), (("HTTP",), "root-only"), (("LLUDP",), "root-only"), (("EQ",), "root-only"),
+        (("E*",), "root-only"), (("ParcelProperties",), "root-only"), (("LLUDP", "ParcelData", "LocalID"), "root-by-type"),
+        (("EQ", "ParcelData", "LocalID"), "root-by-type"), (("ParcelProperties", "ParcelData", "LocalID"), "exact"),
+        (("Foo", "Bar"), "arity2"),
         (("Foo", "Bar", "I", "x", "y"), "arity5"),
         (("Meta", "Type"), "meta2"), (("Meta", "Method"), "meta2"), (("Meta", "AgentLocal"), "meta2"), (("Meta", "SelectedLocal"), "meta2"),
         (("Meta", "ObjectUpdateIDs"), "meta2"), (("Meta", "Acks"), "meta2"), (("Meta", "Extra"), "meta2"), (("Meta", "AgentID"), "meta2"),
@@ -613,6 +630,15 @@ def _b_check_filter(part: Part, selector, op, lit, eids):
     refs = {}
     for eid in eids:
         refs[eid] = check_leaf(part, node, text, selector, op, lit, eid, {**wbase, "entry": eid})
+    # opposite order, freshly compiled filter: a verdict is a function of (filter, entry) alone
+    node2 = compile_filter(text)
+    for eid in reversed(eids):
+        entry = entries()[eid][0]
+        again = [real_eval(node2, entry, True), real_eval(node2, entry, False)]
+        part.count("evaluations", 2)
+        if again != list(refs[eid][3]):
+            part.violation("evaluation-order-dependence", f"{entries()[eid][1].kind}.matches:{SEL_SHAPE.get(tuple(selector), 'other')}",
+                           {**wbase, "entry": eid}, f"{text!r} on {eid}: {refs[eid][3]} in list order, {again} in reverse order")
     # the same through the logger: add_log_entry must give the same verdict and log no exception; set_filter must not raise
     opname = op or "bare"
     lg = FilteringMessageLogger(maxlen=len(eids) + 1)
@@ -691,10 +717,11 @@ def _b_work(item):
 # (text, selector, op, literal text).  Truth/shape combinations over ENTRY_IDS_A:
 A_LEAVES: List[Tuple[str, Tuple[str, ...], Optional[str], Optional[str]]] = [
     ("Foo.Bar.I == 5", ("Foo", "Bar", "I"), "==", "5"),       # true *with* matched fields (udp_foo, udp_foo_frozen, udp_multi)
-    ("F*", ("F*",), None, None),                             # name glob, true without fields (LLUDP Foo, EQ Foo, HTTP FakeCap)
-    ("Foo.Bar.I == 0", ("Foo", "Bar", "I"), "==", "0"),       # false everywhere
+    ("F*", ("F*",), None, None),                             # name glob, true without fields (LLUDP Foo, EQ Foo, HTTP Foo/FakeCap)
+    ("LLUDP", ("LLUDP",), None, None),                       # root by entry type: differs between entries of the same name
     ("Meta.AgentLocal", ("Meta", "AgentLocal"), None, None),  # Meta truthiness (udp_bar, udp_stub)
     ("Foo.Bar.* > 4", ("Foo", "Bar", "*"), ">", "4"),         # type-inapplicable to later fields: true by the first field
+    ("Foo.Bar.I == 0", ("Foo", "Bar", "I"), "==", "0"),       # false everywhere
     ("HTTP", ("HTTP",), None, None),                         # root by entry type
     ("Foo.Bar.S < 6", ("Foo", "Bar", "S"), "<", "6"),         # type-inapplicable to the only selected field
 ]
@@ -828,6 +855,7 @@ def check_tree(part, t: Tree, text: str, witness, family: str):
         kids = [root.left_node, root.right_node]
     lv = leaves_of(t)
     vec = []
+    fwd = {}
     for eid in ENTRY_IDS_A:
         entry = entries()[eid][0]
         res = {}
@@ -863,7 +891,16 @@ def check_tree(part, t: Tree, text: str, witness, family: str):
             if a[1] != b[1]:
                 part.violation("short-circuit-disagree", f"{_node_cls(root)}.match", {**witness, "entry": eid},
                                f"{text!r} on {eid}: short_circuit=True -> {a[1]}, short_circuit=False -> {b[1]}")
+        fwd[eid] = (a, b)
         part.outcome(("a", eid, tuple(lo[(i, eid, True)][:2] for i in sorted(lv)), a[:2], b[:2]))
+    # the same expression over the entry list in the opposite order: a verdict is a function of (filter, entry) alone
+    for eid in reversed(ENTRY_IDS_A):
+        entry = entries()[eid][0]
+        again = (real_eval(root, entry, True), real_eval(root, entry, False))
+        part.count("evaluations", 2)
+        if again != fwd[eid]:
+            part.violation("evaluation-order-dependence", f"{_node_cls(root)}.match", {**witness, "entry": eid},
+                           f"{text!r} on {eid}: {fwd[eid]} when the entries are evaluated in list order, {again} in reverse order")
     if len(set(vec)) > 1:
         part.mark_nontrivial(("a", text))
 
@@ -972,7 +1009,7 @@ def _a_tree_work(item):
 C_FILTERS = [
     ("all", ""),
     ("selective", "Foo.Bar.I == 5 || HTTP"),
-    ("nothing", "Nothing"),
+    ("nothing", "!LLUDP && !EQ && !HTTP"),   # every entry is of one of the three types; all three logged kinds share the NAME Foo
     ("inapplicable", '*.*.* ^= "he"'),   # not applicable to the int field that comes first; the str field S satisfies it
 ]
 C_KINDS = ["LLUDP", "EQ", "HTTP"]
@@ -983,6 +1020,33 @@ C_REF = {
     "nothing": {"LLUDP": False, "EQ": False, "HTTP": False},
     "inapplicable": {"LLUDP": True, "EQ": False, "HTTP": False},
 }
+
+
+def _snapshot_module_state():
+    """Module-level containers of the anchored modules as of import (fresh() puts them back: a world must not inherit state
+    from the worlds the same worker process built before -- within one world such state is of course live)."""
+    from hippolyzer.lib.proxy import message_filter as mf
+    snap = []
+    for mod in (ml, mf):
+        for name, val in sorted(vars(mod).items()):
+            if not name.startswith("__") and type(val) in (dict, list, set):
+                snap.append((val, type(val)(val)))
+    return snap
+
+
+_MODULE_STATE = _snapshot_module_state()
+
+
+def _restore_module_state():
+    for live, saved in _MODULE_STATE:
+        if live != saved:
+            live.clear()
+            if isinstance(live, dict):
+                live.update(saved)
+            elif isinstance(live, list):
+                live.extend(saved)
+            else:
+                live |= saved
 
 
 class LogWorld:
@@ -1014,6 +1078,7 @@ class LogHarness:
         self.maxlen = maxlen
 
     def fresh(self) -> LogWorld:
+        _restore_module_state()
         return LogWorld(self.maxlen)
 
     def enabled(self, w: LogWorld):
@@ -1067,9 +1132,9 @@ class LogHarness:
                         m = Message("Foo", Block("Bar", I=5, S="hello", Serial=w.serial), packet_id=w.serial)
                         lg.log_lludp_message(None, None, m)
                     elif k == "EQ":
-                        lg.log_eq_event(None, None, {"message": "EstablishAgentCommunication", "body": {"Serial": w.serial}})
+                        lg.log_eq_event(None, None, {"message": "Foo", "body": {"Serial": w.serial}})
                     else:
-                        lg.log_http_response(_http_flow(w.serial, "FakeCap", path=f"/cap/{w.serial}"))
+                        lg.log_http_response(_http_flow(w.serial, "Foo", path=f"/cap/{w.serial}"))
                 elif kind == "filter":
                     lg.set_filter(C_FILTERS[ev[1]][1])
                 elif kind == "pause":
@@ -1129,11 +1194,14 @@ _D_ROWS_ALL = False
 
 def _hdr_of(m) -> dict:
     return {"name": m.name, "direction": getattr(m.direction, "name", m.direction), "flags": int(m.send_flags), "packet_id": m.packet_id,
-            "acks": tuple(m.acks), "extra": bytes(m.extra), "dropped": bool(m.dropped), "synthetic": bool(m.synthetic)}
+            "acks": tuple(m.acks), "extra": bytes(m.extra), "dropped": bool(m.dropped), "synthetic": bool(m.synthetic),
+            "blocks": tuple((b, len(bl)) for b, bl in m.blocks.items())}
 
 
-def check_d_case(part, gen, name: str, k: int, case: dict):
+def check_d_case(part, gen, name: str, k: int, case: dict, variant: Optional[int] = None):
     wbase = {"part": "d", "seed": gen.seed, "name": name, "row": k}
+    if variant is not None:
+        wbase = {"part": "d", "seed": gen.seed, "name": name, "variant": variant, "tag": case.get("tag")}
     base = gen.lib_message(case)
     try:
         b0 = bytes(_SER.serialize(base))
@@ -1141,7 +1209,16 @@ def check_d_case(part, gen, name: str, k: int, case: dict):
         part.count("d_skipped_unserializable")
         return
     de = _deferred_deserializer()
+    # block lists (names in order, multiplicities -- a list that is present with zero blocks is part of the message)
+    blocks_fresh = tuple((b, len(rows)) for b, rows in case["blocks"])
+    try:
+        blocks_wire = tuple((b, len(bl)) for b, bl in de.deserialize(b0).blocks.items())
+    except Exception:  # noqa  (C01's business)
+        part.count("d_skipped_undecodable")
+        blocks_wire = None
     for mode in ("fresh", "wire"):
+        if mode == "wire" and blocks_wire is None:
+            continue
         for frozen in (False, True):
             if mode == "fresh":
                 m = gen.lib_message(case)
@@ -1151,8 +1228,9 @@ def check_d_case(part, gen, name: str, k: int, case: dict):
                 m.direction = Direction.IN
             m.dropped = bool(k % 2)
             m.synthetic = (k % 3 == 2)
-            want = _hdr_of(m)
-            want["extra"] = bytes(case["extra"])
+            want = {"name": m.name, "direction": m.direction.name, "flags": int(m.send_flags), "packet_id": m.packet_id,
+                    "acks": tuple(m.acks), "extra": bytes(case["extra"]), "dropped": bool(m.dropped), "synthetic": bool(m.synthetic),
+                    "blocks": blocks_fresh if mode == "fresh" else blocks_wire}
             ent = LLUDPMessageLogEntry(m, None, None)
             w = {**wbase, "mode": mode, "frozen": frozen}
             if frozen:
@@ -1173,7 +1251,7 @@ def check_d_case(part, gen, name: str, k: int, case: dict):
                 _compare_msg(part, "export-preserves", "export_log_entries:LLUDP", back[0].message, want, b0, w, back[0])
             except Exception as e:  # noqa
                 part.violation("export-preserves", f"export_log_entries:LLUDP:{type(e).__name__}", w, f"{name} row {k} {mode} frozen={frozen}: {e!r}"[:300])
-    part.mark_nontrivial(("d", name, k, case["flags"], len(case["acks"]), len(case["extra"])))
+    part.mark_nontrivial(("d", name, k, case.get("tag"), case["flags"], len(case["acks"]), len(case["extra"])))
     part.outcome(("d", len(b0), b0[:10]))
 
 
@@ -1203,6 +1281,12 @@ def _d_work(names: List[str]):
             if k > 0 and not _D_ROWS_ALL:
                 break
             check_d_case(part, gen, name, k, case)
+        # block-count variants: Variable blocks with 0 / 2 (thorough: 255) entries, mixed counts, trailing blocks left out
+        for j, case in enumerate(gen.count_variants(name)):
+            if not _D_ROWS_ALL and "255" in case["tag"]:
+                continue
+            part.count("d_count_variants")
+            check_d_case(part, gen, name, j, case, variant=j)
     return part.dump()
 
 
@@ -1395,9 +1479,14 @@ def replay(w):
         _b_check_filter(part, sel, w.get("op"), lit, [w["entry"]] if w.get("entry") else ENTRY_IDS_B)
     elif p == "d":
         gen = msggen.Gen(int(w.get("seed", 0)))
-        for k, case in enumerate(gen.value_rows(w["name"])):
-            if k == int(w["row"]):
-                check_d_case(part, gen, w["name"], k, case)
+        if "variant" in w:
+            for j, case in enumerate(gen.count_variants(w["name"])):
+                if j == int(w["variant"]):
+                    check_d_case(part, gen, w["name"], j, case, variant=j)
+        else:
+            for k, case in enumerate(gen.value_rows(w["name"])):
+                if k == int(w["row"]):
+                    check_d_case(part, gen, w["name"], k, case)
     elif p == "d-eq":
         check_d_eq(part, int(w["index"]))
     elif p == "d-http":
